@@ -42,16 +42,16 @@ const deviceDomain = "d.sim.test"
 // ---- universe ----
 
 type devSpec struct {
-	id        agd.DeviceID
-	prof      *profSpec
-	attached  bool
-	authOn    bool
-	dohOnly   bool
-	password  string // "" = no password set (allow-all authenticator)
+	id       agd.DeviceID
+	prof     *profSpec
+	attached bool
+	authOn   bool
+	dohOnly  bool
+	password string // "" = no password set (allow-all authenticator)
 
 	// badHash, if not nil, is stored in place of the hash of password: bytes
 	// no password hashes to (not a bcrypt hash at all, or a damaged one).
-	badHash []byte
+	badHash   []byte
 	linkedIP  netip.Addr
 	dedicated netip.Addr
 	humanID   string // human-readable ID, in the case the device was named with
